@@ -78,6 +78,12 @@ type Op struct {
 
 	// crash: die after the W-th store write from now (0: right now, i.e. after the previous op)
 	W int `json:"w,omitempty"`
+
+	// impatient caller (ph, vote): the context of the call reports cancellation from its CA-th poll on
+	// (0 = patient). Polls are the callee's own Done()/Err() reads, so the cancellation lands at a
+	// generated point inside the call: before the request is handed to the kernel, or after it and
+	// before the answer is read.
+	CA int `json:"ca,omitempty"`
 }
 
 type simCase struct {
@@ -192,6 +198,7 @@ type sim struct {
 	altUsed        bool
 	hasAlt         int
 	inConc         bool
+	cancelAt       int    // the running op's caller gives up at this context poll (0 = patient)
 	fOnly          bool   // C06: after the first vote op only members of fMask sign, macro rounds are skipped
 	fPhase         bool
 	fMask          uint32 // sanitized: power(fMask) < 1/3 of every set's total
@@ -248,16 +255,23 @@ func (s *sim) stopped() bool { return s.fail != nil || s.abort != "" }
 
 type pollCtx struct {
 	context.Context
-	polls   atomic.Int64
-	limit   int64
-	tripped atomic.Bool
+	polls     atomic.Int64
+	limit     int64
+	tripped   atomic.Bool
+	cancelAt  int64 // > 0: the caller gives up at this poll
+	cancelled atomic.Bool
 }
 
 var closedCh = func() chan struct{} { c := make(chan struct{}); close(c); return c }()
 
 func (p *pollCtx) Done() <-chan struct{} {
-	if p.polls.Add(1) > p.limit {
+	n := p.polls.Add(1)
+	if n > p.limit {
 		p.tripped.Store(true)
+		return closedCh
+	}
+	if p.cancelAt > 0 && n >= p.cancelAt {
+		p.cancelled.Store(true)
 		return closedCh
 	}
 	return p.Context.Done()
@@ -266,6 +280,9 @@ func (p *pollCtx) Done() <-chan struct{} {
 func (p *pollCtx) Err() error {
 	if p.tripped.Load() {
 		return context.DeadlineExceeded
+	}
+	if p.cancelled.Load() {
+		return context.Canceled
 	}
 	return p.Context.Err()
 }
@@ -288,7 +305,7 @@ func (r *callResult) livelock() bool { return r.pc.tripped.Load() }
 
 func (s *sim) call(f func(ctx context.Context)) *callResult {
 	base, cancel := context.WithTimeout(s.n.ctx, callDeadline)
-	pc := &pollCtx{Context: base, limit: pollLimit}
+	pc := &pollCtx{Context: base, limit: pollLimit, cancelAt: int64(s.cancelAt)}
 	res := &callResult{pc: pc}
 	go func() {
 		defer cancel()
@@ -654,6 +671,12 @@ func (s *sim) setFor(h uint64) vset {
 
 func (s *sim) exec(op Op) {
 	s.pendingFinding = ""
+	s.cancelAt = 0
+	if op.CA > 0 && (op.K == "ph" || op.K == "vote") {
+		s.cancelAt = op.CA
+		s.label("impatient-caller")
+		defer func() { s.cancelAt = 0 }()
+	}
 	switch op.K {
 	case "ph":
 		s.execPH(op)
